@@ -21,6 +21,10 @@ CONSTANTS
   DevIdleSweep = FALSE
   DevFwdNoEof = FALSE
   SrcKinds = {"pkt"}
+  ErrClasses = {"plain"}
+  PollOn = FALSE
+  RetryOn = {}
+  RetryWriteOn = {}
   DevBufio = FALSE
   AttachKinds = {"local"}
   HoldOn = TRUE
